@@ -28,6 +28,8 @@ class DefaultSettings(MagicProperties):
 
     def reset(self):
         """Resets all nested properties to their hard coded default values"""
+        # start from empty settings so that properties without a hard coded default are unset again
+        self.display = None
         self.update(get_defaults_dict(), _match_properties=False)
         return self
 
